@@ -49,7 +49,10 @@ type c09Config struct {
 
 // script names are ordinary map keys: per cents, blanks and dots included
 func c09Name(i int) string {
-	return []string{"a.p", "b%d.p", "100%.p", "d %s d.p", "e.p", "f.p", "g.ppl", "h-8.p"}[i%8]
+	if i >= 8 {
+		return fmt.Sprintf("s%d.p", i)
+	}
+	return []string{"a.p", "b%d.p", "100%.p", "d %s d.p", "e.p", "f.p", "g.ppl", "h-8.p"}[i]
 }
 
 func c09PerScript(n int) int64 { return 3 * (1 + int64(n+1) + int64(n+1)*int64(n+1)) }
@@ -92,6 +95,7 @@ func (c09) Plan(tier string, seed int64) []mon.Workload {
 			{Name: "n3", N: c09Count(3), Exhaustive: true},
 			{Name: "n4-random", N: 120000},
 			{Name: "deep-chains", N: 6000},
+			{Name: "big-sets", N: int64(len(c09BigSizes) * len(c09BigShapes)), Exhaustive: true},
 		}
 	}
 	return []mon.Workload{
@@ -100,10 +104,79 @@ func (c09) Plan(tier string, seed int64) []mon.Workload {
 		{Name: "n3-random", N: 4000},
 		{Name: "n4-random", N: 3000},
 		{Name: "deep-chains", N: 150},
+		{Name: "big-sets", N: int64(len(c09BigSizes) * len(c09BigShapes)), Exhaustive: true},
 	}
 }
 
+// big-sets (exhaustive): sets of 9..65 scripts (both sides of 16, 32, 64) in
+// the shapes real workspaces have - one long chain, a star, a binary tree, a
+// ladder of diamonds, two chains that join - valid, or with one fault at the
+// far end (a missing script, an unparsable one, a call back to the middle).
+var c09BigSizes = []int{9, 15, 16, 17, 31, 32, 33, 63, 64, 65}
+var c09BigShapes = []string{"chain", "star", "tree", "ladder", "join", "chain-missing", "chain-broken", "chain-cycle", "tree-missing", "ladder-cycle", "star-broken"}
+
+func c09Big(i int64) c09Config {
+	shape := c09BigShapes[int(i)%len(c09BigShapes)]
+	n := c09BigSizes[int(i)/len(c09BigShapes)]
+	cfg := c09Config{N: n, Scripts: make([]c09Script, n)}
+	call := func(from, to int) { cfg.Scripts[from].Calls = append(cfg.Scripts[from].Calls, to) }
+	base := strings.SplitN(shape, "-", 2)[0]
+	switch base {
+	case "chain":
+		for s := 0; s+1 < n; s++ {
+			call(s, s+1)
+		}
+	case "star":
+		// the root calls two hubs, every hub calls the next two scripts (calls per script stay small)
+		for s := 0; s < n; s++ {
+			if 2*s+1 < n {
+				call(s, 2*s+1)
+			}
+			if 2*s+2 < n {
+				call(s, 2*s+2)
+			}
+			if s > 0 && s%5 == 0 {
+				call(0, s)
+			}
+		}
+	case "tree":
+		for s := 0; s < n; s++ {
+			if 2*s+1 < n {
+				call(s, 2*s+1)
+			}
+			if 2*s+2 < n {
+				call(s, 2*s+2)
+			}
+		}
+	case "ladder":
+		for s := 0; s+1 < n; s++ {
+			call(s, s+1)
+			if s+2 < n {
+				call(s, s+2)
+			}
+		}
+	case "join":
+		for s := 0; s+2 < n; s++ {
+			call(s, s+2)
+		}
+		call(n-2, n-1)
+	}
+	switch {
+	case strings.HasSuffix(shape, "-missing"):
+		call(n-1, n) // index n = a name that is not in the set
+	case strings.HasSuffix(shape, "-broken"):
+		cfg.Scripts[n-1].Kind = 1
+		cfg.Scripts[n-1].Calls = nil
+	case strings.HasSuffix(shape, "-cycle"):
+		call(n-1, n/2)
+	}
+	return cfg
+}
+
 func (c09) config(c *mon.Ctx, workload string, i int64) c09Config {
+	if workload == "big-sets" {
+		return c09Big(i)
+	}
 	switch workload {
 	case "n1":
 		return c09Decode(1, i)
@@ -277,6 +350,9 @@ func (cfg c09Config) String() string {
 
 // model verdicts
 func c09Model(cfg c09Config) []bool {
+	if cfg.N > 8 {
+		return c09ModelBig(cfg)
+	}
 	ok := make([]bool, cfg.N)
 	for s := 0; s < cfg.N; s++ {
 		onPath := map[int]bool{}
@@ -295,6 +371,38 @@ func c09Model(cfg c09Config) []bool {
 			return true
 		}
 		ok[s] = dfs(s)
+	}
+	return ok
+}
+
+// c09ModelBig is the same verdict computed without walking every path: a
+// script is accepted iff everything reachable from it exists and is valid and
+// the reachable part of the graph has no cycle.
+func c09ModelBig(cfg c09Config) []bool {
+	ok := make([]bool, cfg.N)
+	for s := 0; s < cfg.N; s++ {
+		good := true
+		color := map[int]int{} // 1 = on the path, 2 = done
+		var dfs func(x int)
+		dfs = func(x int) {
+			if !good {
+				return
+			}
+			if x >= cfg.N || cfg.Scripts[x].Kind != 0 || color[x] == 1 {
+				good = false
+				return
+			}
+			if color[x] == 2 {
+				return
+			}
+			color[x] = 1
+			for _, t := range cfg.Scripts[x].Calls {
+				dfs(t)
+			}
+			color[x] = 2
+		}
+		dfs(s)
+		ok[s] = good
 	}
 	return ok
 }
